@@ -23,6 +23,13 @@ func restoreIndex(rootGoitPath, path string, index *store.Index, tree *object.Tr
 	// get node
 	node, isNodeFound := object.GetNode(tree.Children, path)
 
+	// if the entry is already the same as the one of HEAD, there is nothing to restore
+	if isEntryFound && isNodeFound {
+		if _, entry, _ := index.GetEntry([]byte(path)); entry.Hash.Compare(node.Hash) {
+			return nil
+		}
+	}
+
 	// if the path is registered in the Index
 	if isEntryFound {
 		// restore index
